@@ -1,4 +1,4 @@
-use crate::ast::{BinaryOp, Commented, Expr, RecordEntry, RecordKey, SpannedExpr};
+use crate::ast::{BinaryOp, Commented, Expr, RecordEntry, RecordKey, SpannedExpr, UnaryOp};
 use crate::ast_to_source::{
     Position, expr_to_source, format_record_key, needs_parens, needs_parens_in_binop,
 };
@@ -43,6 +43,11 @@ fn format_expr_impl(expr: &SpannedExpr, max_cols: usize, indent: usize) -> Strin
         return format_multiline(expr, max_cols, indent);
     }
 
+    // Comments are only emitted by the multi-line layouts
+    if has_comments_deep(expr) {
+        return format_multiline(expr, max_cols, indent);
+    }
+
     // First, try single-line formatting using our custom formatter
     let single_line = format_single_line(expr);
 
@@ -58,6 +63,57 @@ fn format_expr_impl(expr: &SpannedExpr, max_cols: usize, indent: usize) -> Strin
 
     // Otherwise, apply smart multi-line formatting based on expression type
     format_multiline(expr, max_cols, indent)
+}
+
+/// Does any list item, record entry or do-block statement inside `expr` carry a comment?
+fn has_comments_deep(expr: &SpannedExpr) -> bool {
+    match &expr.node {
+        Expr::List(items) => items
+            .iter()
+            .any(|item| item.has_comments() || has_comments_deep(&item.node)),
+        Expr::Record(entries) => entries.iter().any(|entry| {
+            entry.has_comments()
+                || has_comments_deep(&entry.node.value)
+                || match &entry.node.key {
+                    RecordKey::Dynamic(key) | RecordKey::Spread(key) => has_comments_deep(key),
+                    RecordKey::Static(_) | RecordKey::Shorthand(_) => false,
+                }
+        }),
+        Expr::DoBlock {
+            statements,
+            return_expr,
+        } => {
+            statements
+                .iter()
+                .any(|stmt| stmt.has_comments() || has_comments_deep(&stmt.node))
+                || return_expr.has_comments()
+                || has_comments_deep(&return_expr.node)
+        }
+        Expr::Lambda { body, .. } => has_comments_deep(body),
+        Expr::Conditional {
+            condition,
+            then_expr,
+            else_expr,
+        } => {
+            has_comments_deep(condition) || has_comments_deep(then_expr) || has_comments_deep(else_expr)
+        }
+        Expr::Assignment { value, .. } => has_comments_deep(value),
+        Expr::Output { expr } => has_comments_deep(expr),
+        Expr::Call { func, args } => has_comments_deep(func) || args.iter().any(has_comments_deep),
+        Expr::Access { expr, index } => has_comments_deep(expr) || has_comments_deep(index),
+        Expr::DotAccess { expr, .. } => has_comments_deep(expr),
+        Expr::BinaryOp { left, right, .. } => has_comments_deep(left) || has_comments_deep(right),
+        Expr::UnaryOp { expr, .. } | Expr::PostfixOp { expr, .. } | Expr::Spread(expr) => {
+            has_comments_deep(expr)
+        }
+        Expr::Number(_)
+        | Expr::String(_)
+        | Expr::Bool(_)
+        | Expr::Null
+        | Expr::Identifier(_)
+        | Expr::InputReference(_)
+        | Expr::BuiltIn(_) => false,
+    }
 }
 
 /// Format an expression on a single line (respecting our formatting rules)
@@ -163,8 +219,53 @@ fn format_multiline(expr: &SpannedExpr, max_cols: usize, indent: usize) -> Strin
             statements,
             return_expr,
         } => format_do_block_multiline(statements, return_expr, max_cols, indent),
-        // For other expression types, fall back to single-line
+        Expr::Lambda { args, body } => format_lambda(args, body, max_cols, indent),
+        Expr::UnaryOp { op, expr: inner } => {
+            let op_str = match op {
+                UnaryOp::Negate => "-",
+                UnaryOp::Not => "!",
+                UnaryOp::Invert => "~",
+            };
+            format!(
+                "{}{}",
+                op_str,
+                format_operand(inner, Position::Prefix, max_cols, indent)
+            )
+        }
+        Expr::PostfixOp { expr: inner, .. } => {
+            format!(
+                "{}!",
+                format_operand(inner, Position::PostfixBase, max_cols, indent)
+            )
+        }
+        Expr::Access { expr: inner, index } => format!(
+            "{}[{}]",
+            format_operand(inner, Position::PostfixBase, max_cols, indent),
+            format_expr_impl(index, max_cols, indent)
+        ),
+        Expr::DotAccess { expr: inner, field } => format!(
+            "{}.{}",
+            format_operand(inner, Position::PostfixBase, max_cols, indent),
+            field
+        ),
+        Expr::Spread(inner) => format!("...{}", format_expr_impl(inner, max_cols, indent)),
+        // Leaves have a single form
         _ => expr_to_source(expr),
+    }
+}
+
+/// Format a sub-expression, parenthesised when its position requires it
+fn format_operand(
+    expr: &SpannedExpr,
+    position: Position,
+    max_cols: usize,
+    indent: usize,
+) -> String {
+    let formatted = format_expr_impl(expr, max_cols, indent);
+    if needs_parens(expr, position) {
+        format!("({})", formatted)
+    } else {
+        formatted
     }
 }
 
@@ -325,7 +426,10 @@ fn format_lambda(args: &[LambdaArg], body: &SpannedExpr, max_cols: usize, indent
     let single_line = format!("{} {}", args_part, single_line_body);
 
     // Check only if it's actually single-line and fits
-    if !single_line.contains('\n') && indent + single_line.len() <= max_cols {
+    if !has_comments_deep(body)
+        && !single_line.contains('\n')
+        && indent + single_line.len() <= max_cols
+    {
         return single_line;
     }
 
@@ -354,7 +458,10 @@ fn format_conditional_multiline(
 
     let inner_indent = indent + INDENT_SIZE;
 
-    if !cond_str.contains('\n') && indent + if_then_prefix.len() <= max_cols {
+    if !has_comments_deep(condition)
+        && !cond_str.contains('\n')
+        && indent + if_then_prefix.len() <= max_cols
+    {
         // Put then/else clauses on new lines
         // Check if else_expr is another conditional (else-if chain)
         if let Expr::Conditional {
